@@ -773,6 +773,15 @@ def rule_df(ctx):
                     problems.append("`%s` is not protected by `except ValueError`: a text column makes df() fail" % unparse(c))
                 elif not all(len(h.body) == 1 and isinstance(h.body[0], (ast.Pass, ast.Continue)) for h in tr.handlers):
                     problems.append("a column that cannot be converted as a whole is not left as it is")
+    # set_data_from_df takes the names exactly as the frame carries them (index name + str(column))
+    fs = p.func(LF + ".set_data_from_df")
+    for sub in walk_shallow(fs.node):
+        if isinstance(sub, ast.Call):
+            nm = ast.unparse(sub.func)
+            if nm.startswith("re.") or (isinstance(sub.func, ast.Attribute) and sub.func.attr in ("strip", "rstrip", "lstrip", "replace", "split", "rsplit",
+                                                                                              "partition", "rpartition", "upper", "lower", "removesuffix", "removeprefix")):
+                problems.append("set_data_from_df rewrites the column names with `%s`: set_data_from_df(df()) no longer restores the curves' "
+                                "names (RHO:2/RHO:3 after a deletion come back as RHO:1/RHO:2, a curve really called RES:1 becomes RES)" % unparse(sub)[:60])
     ctx.check(not problems, "EX.DF", fi.qual, fi, fi.node, "df(): self.data with the session mnemonics as columns, first curve as index",
               "; ".join(problems))
     ctx.floor("EX.DF", 1)
